@@ -97,6 +97,24 @@ func c14NewViewV(root *ssa.Function, maxDepth int, expand func(g *ssa.Function) 
 					continue
 				}
 				g := StaticCallee(call)
+				if g == nil && !call.Call.IsInvoke() && cx.site != nil && !cx.virtual {
+					// a call of a func-typed parameter: at this call site of the helper the parameter is a known
+					// function literal / function — the helper is instantiated with it
+					if p, isP := call.Call.Value.(*ssa.Parameter); isP {
+						for i, q := range cx.fn.Params {
+							if q == p && i < len(cx.site.Common().Args) {
+								if rs := Roots(cx.site.Common().Args[i]); len(rs) == 1 {
+									switch x := rs[0].(type) {
+									case *ssa.MakeClosure:
+										g = x.Fn.(*ssa.Function)
+									case *ssa.Function:
+										g = x
+									}
+								}
+							}
+						}
+					}
+				}
 				virtual := false
 				if virt != nil {
 					if vg := virt(call); vg != nil {
